@@ -189,13 +189,20 @@ def run(ctx):
         tu.seed_all(s["seed"])
         err = res = None
         with tu.patched(cla, "predict_cluster_labels", scripted_relabel):
-            with tu.Trace(capture_kernel=False) as tr:
+            with tu.Trace(capture_kernel=False, max_rounds=s["limit"] + 3) as tr:
                 try:
                     res = tu.run_single(data, window_size=W, num_clusters=K, label_switching_cost=5.0,
                                         min_cluster_size=3, iteration_limit=s["limit"])
                 except Exception as e:
                     err = e
+                except tu.RunawayLoop as e:
+                    err = e
         ctx.count(f"script:{s['style']}")
+        if isinstance(err, tu.RunawayLoop):
+            ctx.violation("impl-violation", f"iteration_limit={s['limit']} not honoured on a scripted label history: {err}",
+                          s, {"site": "main-loop", "clause": "bounds"})
+            ctx.case(("script", tuple(s["script"]), s["cyc"], s["limit"]), nontrivial=True)
+            continue
         if err is not None:
             ctx.count("scripted_raised:" + type(err).__name__)
             ctx.case(("script", tuple(s["script"]), s["limit"], s["cyc"]))
@@ -267,6 +274,11 @@ def run(ctx):
                 if built is not None:
                     whole_lines.append(built[0])
                     whole_meta.append((cfg, tr, built[1], built[2]))
+        if isinstance(err, tu.RunawayLoop):
+            ctx.violation("impl-violation", f"iteration_limit={cfg['limit']} not honoured: {err}", cfg,
+                          {"site": "main-loop", "clause": "bounds"})
+            ctx.case(("cfg", repr(sorted(cfg.items()))), nontrivial=True)
+            continue
         if err is not None:
             ctx.count("runs_raised:" + type(err).__name__)
             ctx.case(("cfg", repr(sorted(cfg.items()))))
